@@ -170,3 +170,59 @@ func TestC06RoutingECDSA(t *testing.T) {
 	r := ev.New(t, "C06")
 	ev.Drive(t, r, genC06Route([]string{"ecdsa-keygen", "ecdsa-signing", "ecdsa-resharing"}), runC06Route)
 }
+
+// TestC06SenderIndexSweep: every message type of every protocol, handed to every (started or not yet
+// started) party with every small sender index and both channel kinds. No call may panic.
+type c06Sweep struct {
+	Proto   string
+	OldN    int
+	NewN    int
+	Started bool
+}
+
+func TestC06SenderIndexSweep(t *testing.T) {
+	r := ev.New(t, "C06")
+	var cases []c06Sweep
+	for _, p := range allProtos {
+		for _, st := range []bool{true, false} {
+			cases = append(cases, c06Sweep{Proto: p, OldN: 2, NewN: 3, Started: st}, c06Sweep{Proto: p, OldN: 3, NewN: 2, Started: st})
+		}
+	}
+	ev.Each(t, r, cases, func(c c06Sweep) ev.Outcome {
+		out := ev.Outcome{Label: fmt.Sprintf("sender-index-sweep %s old=%d new=%d started=%v", c.Proto, c.OldN, c.NewN, c.Started), Nontrivial: true}
+		run := fixedRun(c.Proto, c.OldN+1, c.OldN-1, c.NewN-2)
+		if c.Proto[6:] != "resharing" {
+			run = fixedRun(c.Proto, 3, 1, 1)
+		}
+		ref := run.build()
+		ref.net.Run(sim.FIFO{}, 200000)
+		types := map[string]*sim.Emit{}
+		for _, e := range ref.net.Emits {
+			if _, ok := types[e.Type]; !ok {
+				types[e.Type] = e
+			}
+		}
+		x := run.build()
+		if c.Started {
+			for i := range x.net.Nodes {
+				x.net.Start(i)
+			}
+		}
+		n := len(x.net.Nodes)
+		calls := 0
+		for _, e := range types {
+			for _, nd := range x.net.Nodes {
+				for idx := 0; idx <= n+1; idx++ {
+					for _, bc := range []bool{true, false} {
+						id := tss.NewPartyID("sweep", "sweep", big.NewInt(int64(1000+idx)))
+						id.Index = idx
+						nd.P.UpdateFromBytes(e.Bytes, id, bc)
+						calls++
+					}
+				}
+			}
+		}
+		out.Sample = map[string]interface{}{"proto": c.Proto, "message_types": len(types), "calls": calls}
+		return out
+	})
+}
